@@ -1,5 +1,5 @@
 (** C10 — Classic-notation Display is unambiguous: parsing it back yields the same term *)
-From LC Require Import Spec.Printing Model.Parser Model.Display Proofs.Printing Proofs.RoundTripCla Proofs.Base26.
+From LC Require Import Spec.Printing Model.Parser Model.Display Proofs.Printing Proofs.RoundTripCla Proofs.Base26 Gen.PrintSrc Proofs.PrintSrcTie.
 
 (** for every term without UD (any size, any binder depth — names of 1, 2, 3, … letters), under
     both glyphs: the model of the parser applied to the model's Display output returns the term
@@ -26,8 +26,21 @@ Proof. exact b26_inj. Qed.
 Example C10_example_names : b26 0 = [97%N] /\ b26 25 = [122%N] /\ b26 26 = [97; 97]%N /\ b26 701 = [122; 122]%N /\ b26 702 = [97; 97; 97]%N.
 Proof. repeat split; vm_compute; reflexivity. Qed.
 
+(** The same statements about the printer REGENERATED from src/term.rs on every run (Gen/PrintSrc.v,
+    lib/trans_print.py: base26_encode, show_precedence_cla, parenthesize_if, the Display impl, max_depth). *)
+Theorem C10_src_roundtrip : forall lam t, (lam = 955%N \/ lam = 92%N) -> has_ud t = false ->
+  parse (map classify (PSrc.display lam t)) Classic = inr (canon t).
+Proof. exact src_display_roundtrip. Qed.
+Theorem C10_src_format : forall lam t, PSrc.display lam t = ref_print_cla lam t.
+Proof. exact src_display_format. Qed.
+Theorem C10_src_names : forall n, PSrc.base26_encode n = b26 n.
+Proof. exact src_names. Qed.
+
 Print Assumptions C10_roundtrip.
 Print Assumptions C10_closed.
 Print Assumptions C10_format.
 Print Assumptions C10_names.
 Print Assumptions C10_names_injective.
+Print Assumptions C10_src_roundtrip.
+Print Assumptions C10_src_format.
+Print Assumptions C10_src_names.
